@@ -476,6 +476,18 @@ def redactevent__redactEventJSONV5 : List String := [
   "return redactEventJSON(eventJSON, &unredactableEventFieldsV2{}, unredactableContentFieldsV5)"
 ]
 
+def redactevent_type_unredactableEvent : List String := [
+  "type unredactableEvent interface { *unredactableEventFieldsV1 | *unredactableEventFieldsV2 GetType() string GetContent() map[string]interface{} SetContent(map[string]interface{}) }"
+]
+
+def redactevent_type_unredactableEventFieldsV1 : List String := [
+  "type unredactableEventFieldsV1 struct { EventID spec.RawJSON `json:\"event_id,omitempty\"` Type string `json:\"type\"` RoomID spec.RawJSON `json:\"room_id,omitempty\"` Sender spec.RawJSON `json:\"sender,omitempty\"` StateKey spec.RawJSON `json:\"state_key,omitempty\"` Content map[string]interface{} `json:\"content\"` Hashes spec.RawJSON `json:\"hashes,omitempty\"` Signatures spec.RawJSON `json:\"signatures,omitempty\"` Depth spec.RawJSON `json:\"depth,omitempty\"` PrevEvents spec.RawJSON `json:\"prev_events,omitempty\"` PrevState spec.RawJSON `json:\"prev_state,omitempty\"` AuthEvents spec.RawJSON `json:\"auth_events,omitempty\"` Origin spec.RawJSON `json:\"origin,omitempty\"` OriginServerTS spec.RawJSON `json:\"origin_server_ts,omitempty\"` Membership spec.RawJSON `json:\"membership,omitempty\"` }"
+]
+
+def redactevent_type_unredactableEventFieldsV2 : List String := [
+  "type unredactableEventFieldsV2 struct { EventID spec.RawJSON `json:\"event_id,omitempty\"` Type string `json:\"type\"` RoomID spec.RawJSON `json:\"room_id,omitempty\"` Sender spec.RawJSON `json:\"sender,omitempty\"` StateKey spec.RawJSON `json:\"state_key,omitempty\"` Content map[string]interface{} `json:\"content\"` Hashes spec.RawJSON `json:\"hashes,omitempty\"` Signatures spec.RawJSON `json:\"signatures,omitempty\"` Depth spec.RawJSON `json:\"depth,omitempty\"` PrevEvents spec.RawJSON `json:\"prev_events,omitempty\"` AuthEvents spec.RawJSON `json:\"auth_events,omitempty\"` OriginServerTS spec.RawJSON `json:\"origin_server_ts,omitempty\"` }"
+]
+
 def redactevent_unredactableEventFieldsV1_GetContent : List String := [
   "func func() map[string]interface{}",
   "return u.Content"
@@ -506,6 +518,6 @@ def redactevent_unredactableEventFieldsV2_SetContent : List String := [
   "u.Content = content"
 ]
 
-def functions : List String := ["eventV1.go:eventV1.Redact", "eventV2.go:eventV2.Redact", "eventcrypto.go:.VerifyAllEventSignatures", "eventcrypto.go:.VerifyEventSignatures", "eventcrypto.go:.addContentHashesToEvent", "eventcrypto.go:.checkEventContentHash", "eventcrypto.go:.emptyAuthorisedViaServerName", "eventcrypto.go:.extractAuthorisedViaServerName", "eventcrypto.go:.getMXIDMapping", "eventcrypto.go:.membershipForSignatures", "eventcrypto.go:.referenceOfEvent", "eventcrypto.go:.referenceOfEventForVersion", "eventcrypto.go:.signEvent", "eventcrypto.go:.validateMXIDMappingSignatures", "eventversion.go:RoomVersionImpl.RedactEventJSON", "redactevent.go:.exactFieldsOnly", "redactevent.go:.exactMembersOnly", "redactevent.go:.redactEventJSON", "redactevent.go:.redactEventJSONV1", "redactevent.go:.redactEventJSONV2", "redactevent.go:.redactEventJSONV3", "redactevent.go:.redactEventJSONV4", "redactevent.go:.redactEventJSONV5", "redactevent.go:unredactableEventFieldsV1.GetContent", "redactevent.go:unredactableEventFieldsV1.GetType", "redactevent.go:unredactableEventFieldsV1.SetContent", "redactevent.go:unredactableEventFieldsV2.GetContent", "redactevent.go:unredactableEventFieldsV2.GetType", "redactevent.go:unredactableEventFieldsV2.SetContent"]
+def functions : List String := ["eventV1.go:eventV1.Redact", "eventV2.go:eventV2.Redact", "eventcrypto.go:.VerifyAllEventSignatures", "eventcrypto.go:.VerifyEventSignatures", "eventcrypto.go:.addContentHashesToEvent", "eventcrypto.go:.checkEventContentHash", "eventcrypto.go:.emptyAuthorisedViaServerName", "eventcrypto.go:.extractAuthorisedViaServerName", "eventcrypto.go:.getMXIDMapping", "eventcrypto.go:.membershipForSignatures", "eventcrypto.go:.referenceOfEvent", "eventcrypto.go:.referenceOfEventForVersion", "eventcrypto.go:.signEvent", "eventcrypto.go:.validateMXIDMappingSignatures", "eventversion.go:RoomVersionImpl.RedactEventJSON", "redactevent.go:.exactFieldsOnly", "redactevent.go:.exactMembersOnly", "redactevent.go:.redactEventJSON", "redactevent.go:.redactEventJSONV1", "redactevent.go:.redactEventJSONV2", "redactevent.go:.redactEventJSONV3", "redactevent.go:.redactEventJSONV4", "redactevent.go:.redactEventJSONV5", "redactevent.go:type unredactableEvent", "redactevent.go:type unredactableEventFieldsV1", "redactevent.go:type unredactableEventFieldsV2", "redactevent.go:unredactableEventFieldsV1.GetContent", "redactevent.go:unredactableEventFieldsV1.GetType", "redactevent.go:unredactableEventFieldsV1.SetContent", "redactevent.go:unredactableEventFieldsV2.GetContent", "redactevent.go:unredactableEventFieldsV2.GetType", "redactevent.go:unredactableEventFieldsV2.SetContent"]
 
 end VPins.C05
